@@ -121,6 +121,56 @@ def lease_program(rnd):
     }
 
 
+def exitfail_program(rnd):
+    """Another structured family: a context whose own pause() raises exactly when its with-block is LEFT; the task
+    handles that, goes on, and is suspended for flushes later - the context that was left must not be heard of
+    again, and the task's other contexts follow the usual rules."""
+    site = [0]
+
+    def item():
+        site[0] += 1
+        return ["leaf", ["item", rnd.randrange(2), "x%d" % site[0]]]
+
+    def yields(n):
+        return [["yield", item()] for _ in range(n)]
+
+    k = rnd.choice([0, 0, 1, 2])
+    inner = yields(k)
+    if rnd.random() < 0.3:
+        inner = [["with", ["actx", "inner_ok"], inner + yields(1)]]
+        k += 1
+    blk = [["with", ["actx", "xfail"], inner]]
+    if rnd.random() < 0.4:
+        blk = [["with", ["actx", "around_ok"], blk]]
+    body = []
+    if rnd.random() < 0.4:
+        body += yields(1)
+    body.append(["try", blk, "exc", (yields(1) if rnd.random() < 0.4 else []), []])
+    body += yields(rnd.choice([1, 2]))
+    body.append(["with", ["actx", "later_ok"], yields(rnd.choice([1, 2]))])
+    nodes = [{"style": "asynq", "ret": "return", "body": []} for _ in range(3)]
+    nodes[1]["body"] = body
+    nodes[2]["body"] = [["with", ["actx", "sib_ok"], yields(rnd.choice([1, 2, 3]))]]
+    members = [["leaf", ["call", "xc1", 1]], ["leaf", ["call", "xc2", 2]]]
+    rnd.shuffle(members)
+    nodes[0]["body"] = [["yield", ["list", members]]]
+    if rnd.random() < 0.3:
+        nodes[0]["body"] = [["with", ["actx", "root_ok"], nodes[0]["body"]]]
+    for node in nodes:
+        node["style"] = rnd.choice(["asynq", "asynq", "method", "proxy"])
+    return {
+        "nodes": nodes,
+        "root": 0,
+        "shared": [],
+        "kinds": 2,
+        "faults": {},
+        "flush_faults": {},
+        # pause() number k+1 of that context is the one made by its __exit__
+        "ctx_faults": {"xfail": ["pause", k + 1, rnd.choice(["exc", "exc", "falsy", "frozen"])]},
+        "defaults": {"sv0": "dflt-sv0", "sv1": "dflt-sv1", "at0": "dflt-at0"},
+    }
+
+
 def _shrunk(prog, how, pol, cs, oracle):
     small, runs = tl.shrink_for(prog, how, pol, cs, MON_A, oracle)
     return {"shrunk_program": small, "shrink_runs": runs}
@@ -164,6 +214,10 @@ def run_unit(unit, progress):
             prog = lease_program(random.Random(cs ^ 0x1EA5E))
             faulty = True
             inc("lease_programs")
+        elif i % 12 == 7:
+            prog = exitfail_program(random.Random(cs ^ 0xE817))
+            faulty = True
+            inc("programs_whose_context_fails_while_being_left")
         elif i % 6 == 4:
             names = [st[1][1] for node in prog["nodes"] for st in lang.iter_stmts(node["body"]) if st[0] == "with" and st[1][0] == "actx"]
             frnd = random.Random(cs ^ 0xF06)
